@@ -35,7 +35,7 @@ tv == <<l, drift, nd, live>>
 XReset ==
     /\ pres' = ScenPres(Proms0) /\ pavail' = ScenAvail(Proms0) /\ curposs' = {Cur0} /\ late' = {}
     /\ ck' = <<>> /\ cst' = <<>> /\ ca' = <<>> /\ cres' = <<>> /\ aux' = <<>>
-    /\ canc' = {} /\ fired' = <<>> /\ bad' = {}
+    /\ canc' = {} /\ fired' = <<>> /\ bad' = {} /\ fine' = FALSE   \* -logsteps executions are coarse
     /\ isDone' = [q \in PIds |-> Proms0[q].r]
     /\ fld' = [q \in PIds |-> IF Proms0[q].r THEN <<Proms0[q].v, Proms0[q].e>> ELSE <<>>]
     /\ closed' = [q \in PIds |-> Proms0[q].r]
